@@ -381,6 +381,11 @@ def apply_rewrites(text, opts):
         if t2 != text:
             applied.append("closure tuple-pattern parameters desugared: |(a, b)| e -> |p| { let (a, b) = p; e }")
         text = t2
+    if opts.get("namewild"):
+        t2 = re.sub(r"\|\s*_\s*\|", "|_vx_unused|", text)
+        if t2 != text:
+            applied.append("closure wildcard parameter named: |_| e -> |_vx_unused| e (Verus rejects `_` closure parameters)")
+        text = t2
     if opts.get("detuple"):
         t2 = rw_detuple(text)
         if t2 != text:
@@ -419,6 +424,8 @@ def parse_opts(words):
             opts["untuple"] = True
         elif w == "detuple":
             opts["detuple"] = True
+        elif w == "namewild":
+            opts["namewild"] = True
         elif w.startswith("generics="):
             opts["generics"] = w[9:].replace(":", ": ").replace(",", ", ")
         else:
@@ -541,7 +548,7 @@ def generate(template_path, twin=False):
         body = s.text[ob:cb + 1]
         orig_text = sig + body
         rewrites = []
-        if kind == "prove" and (opts.get("selfas") or opts.get("untuple") or opts.get("detuple")):
+        if kind == "prove" and (opts.get("selfas") or opts.get("untuple") or opts.get("detuple") or opts.get("namewild")):
             whole, rewrites = apply_rewrites(orig_text, opts)
             wbl = blank_noncode(whole)
             wob = first_open_brace(wbl, wbl.index("fn "))
@@ -650,7 +657,7 @@ def generate(template_path, twin=False):
         report["items"].append({"file": rel, "item": item, "role": "prove", "line": line_no,
                                 "body_sha256": hashlib.sha256(orig_text.encode()).hexdigest(),
                                 "loc": body.count("\n") + 1, "rename": opts.get("rename"),
-                                "rewrites": rewrites, "opts": {k: opts[k] for k in ("selfas", "untuple", "detuple") if k in opts},
+                                "rewrites": rewrites, "opts": {k: opts[k] for k in ("selfas", "untuple", "detuple", "namewild") if k in opts},
                                 "contract": contract.strip()})
     gen = "\n".join(out)
     report["dropped"] = [
